@@ -999,6 +999,7 @@ def judge_lines(c, mode='frame'):
     idx = []
     streams = {}
     answered = {}
+    stream_done = set()
     sticky = {}
     for i, (o, b) in enumerate(zip(c['ops'], c['impl'])):
         if o[0] == 'P':
@@ -1046,7 +1047,12 @@ def judge_lines(c, mode='frame'):
                     # the responder of that protocol sees this segment alone
                     forced = ' %d' % sticky[o[6]]
                 elif (mode == 'stream' or meta.get('mode') == 'stream') and o[1] == 'tcp':
-                    # the identification is judged on the byte stream of the flow so far, however it was segmented
+                    # the identification is judged on the byte stream of the flow so far, however it was segmented;
+                    # once the flow's request has been answered the parser starts over: what follows is not judged here
+                    if o[6] in stream_done:
+                        continue
+                    if parts[0] != '-':
+                        stream_done.add(o[6])
                     payload = streams[o[6]]
                 elif meta.get('mode') == 'sticky':
                     continue
